@@ -234,7 +234,8 @@ theorem r11_unambiguous (d : Def) (m : Machine) (h : Accepted d m) (hg : m.Graph
   have hnd : (Static.methodNames (genTypestate m) s).Nodup := by
     unfold Static.accepted at hacc
     simp only [Bool.and_eq_true, List.all_eq_true, decide_eq_true_eq] at hacc
-    apply hacc.1.1.1.1.1.2 s
+    obtain ⟨⟨⟨⟨⟨⟨_, _⟩, h3⟩, _⟩, _⟩, _⟩, _⟩ := hacc
+    apply h3 s
     simp only [Static.markerNames, genTypestate, genMarkers, List.flatMap_append, List.flatMap_map, List.mem_append,
       List.mem_flatMap]
     exact Or.inl (Or.inl (Or.inl (Or.inl ⟨s, hs, by simp⟩)))
